@@ -1,4 +1,5 @@
 """Contracts: OutPoint, TxOut, Witness, TxIn, Tx (C05 codec obligations CO1-CO4, C18 sizes, C19)."""
+import os
 from io import BytesIO
 
 from btclib.exceptions import BTClibRuntimeError, BTClibTypeError, BTClibValueError
@@ -173,15 +174,19 @@ class WitnessSerialize:
         return result == out
 
 
+_THOROUGH = os.environ.get("VERIF_TIER") == "thorough"
+_MAX_STACK = 2 if _THOROUGH else 1
+
+
 @contract("btclib.script.witness.Witness.parse", types=dict(data="oneof[bytes|stream]", check_validity="bool"), props="C05 C19")
 class WitnessParse:
-    """stack lengths 0..2 explored completely (for all element contents and lengths); longer
-    stacks: bounded stand-in"""
+    """stack lengths 0..1 (quick tier) / 0..2 (thorough tier) explored completely, for all element
+    contents and lengths; longer stacks: bounded stand-in"""
 
     def pre(data):
-        # the count byte: stacks of at most 2 elements (list length is the bound of this proof)
+        # the count byte: the list length is the bound of this proof
         b = data.buf[data.pos:data.pos + 1] if isinstance(data, BytesIO) else data[:1]
-        return len(b) == 0 or b[0] <= 2
+        return len(b) == 0 or b[0] <= _MAX_STACK
 
     def raises_BTClibValueError_only_if(data):
         return True
@@ -259,11 +264,9 @@ class TxInTxShape:
         return TxIn(prev_out, script_sig, sequence, script_witness, check_validity=False)
 
 
-import os  # noqa: E402
 
 # Tx-level composition: list lengths are this proof's bound (element codecs are proved for every
 # length on their own): quick tier one input and one output, thorough tier 1..2 of each
-_THOROUGH = os.environ.get("VERIF_TIER") == "thorough"
 _VIN = "list[obj:TxIn#tx;1..2]" if _THOROUGH else "list[obj:TxIn#tx;1]"
 _VOUT = "list[obj:TxOut;1..2]" if _THOROUGH else "list[obj:TxOut;1]"
 
